@@ -834,6 +834,7 @@ def raw_expected(raw):
 
 def k2_end_to_end(drv, rng, tier, progs=None):
   n = 36 if tier == "quick" else 400
+  family = progs is None
   if progs is None:
     progs, seen = [], set()
     while len(progs) < n:
@@ -842,9 +843,12 @@ def k2_end_to_end(drv, rng, tier, progs=None):
         seen.add(s)
         progs.append(s)
   # few workers in quick: a worker's first VM run costs ~3 s of imports/loader warm-up, later ones ~0.3 s
+  jobs = [(s, rng.randrange(1 << 30), 2 if tier == "quick" else 5) for s in progs]
+  if family:
+    jobs = [(s, 0, 99) for s in c03_gen.FAMILY] + jobs
+    progs = list(c03_gen.FAMILY) + list(progs)
   with multiprocessing.Pool(min(8 if tier == "quick" else 16, os.cpu_count() or 4)) as pool:
-    results = pool.map(_k2_worker, [(s, rng.randrange(1 << 30), 2 if tier == "quick" else 5) for s in progs],
-                       chunksize=1)
+    results = pool.map(_k2_worker, jobs, chunksize=1)
   dis = []
   st = {"programs": len(progs), "programs_with_errors": 0, "vm_runs": 0, "edits": 0, "not_appendable": 0,
         "filter_decisions_compared": 0, "vm_crashes": 0, "known_region_hits": {}, "error_classes": {},
